@@ -119,6 +119,14 @@ class LossMix(Mix):
                         if not finished and not pub.cancelled:
                             out.append(('C11.producers-cancelled', 'C11.producers-cancelled | %s | channel-requester-publisher' % tag,
                                         'requester-side channel publisher was neither finished nor cancelled'))
+            # 2b. generator-backed sources of this endpoint: nothing may be pulled from them once the loss has been handled
+            oc0 = next((i for i in range(at, len(log)) if log[i][0] == 'api' and log[i][1] == ep and log[i][3] == 'on_close'), None)
+            if oc0 is not None:
+                # (on_close is delivered after every stream was stopped, so any pull after it is production that was not cancelled)
+                pulled = [ev for ev in log[oc0:] if ev[0] == 'api' and ev[1] == ep and ev[3] == 'produce']
+                if pulled:
+                    out.append(('C11.producers-cancelled', 'C11.producers-cancelled | %s | source-still-pulled' % tag,
+                                '%s: the source %s was pulled (element #%s) after the connection had ended and on_close was delivered' % (name, pulled[0][2], pulled[0][4])))
             # 3. on_close exactly once
             n = sum(1 for ev in log if ev[0] == 'api' and ev[1] == ep and ev[2] == 'handler' and ev[3] == 'on_close')
             if n != 1:
